@@ -4,8 +4,9 @@
    in Undo/UndoModel.v.
 
    [run ops init = Some (s, mss)]: s is the state after the operation history
-   ops (record / seek / advance-clock), for ANY list ops.  [op_fit]: the
-   recorded address's set-message fits the 256-byte rewind/replay buffer.
+   ops (record / seek / advance-clock), for ANY list ops and addresses of any
+   length (after the long-address repair the set-message buffer is sized from
+   the message; the 256-byte version is refuted in C15_long_address_regress).
    [op_ok]: advance-clock steps are non-negative. *)
 From Coq Require Import List ZArith.
 From RtoscV Require Import Undo.UndoModel Undo.UndoProofs Undo.UndoRegress.
@@ -19,14 +20,14 @@ Proof. exact run_total. Qed.
 (* seeking back k steps emits, newest first, one message per event that sets
    its address to the event's old value *)
 Theorem C15_seek_back : forall ops s mss (k : nat),
-  Forall op_fit ops -> run ops init = Some (s, mss) -> (k <= pos s)%nat ->
+  run ops init = Some (s, mss) -> (k <= pos s)%nat ->
   seek (- Z.of_nat k) s =
   Some (mkH (hist s) (pos s - k) (clock s), map set_old (firstn k (applied_newest_first s))).
 Proof. exact hist_seek_back. Qed.
 
 (* seeking forward replays the new values oldest first *)
 Theorem C15_seek_forward : forall ops s mss (k : nat),
-  Forall op_fit ops -> run ops init = Some (s, mss) -> (pos s + k <= length (hist s))%nat ->
+  run ops init = Some (s, mss) -> (pos s + k <= length (hist s))%nat ->
   seek (Z.of_nat k) s =
   Some (mkH (hist s) (pos s + k) (clock s), map set_new (firstn k (undone_oldest_first s))).
 Proof. exact hist_seek_forward. Qed.
@@ -102,10 +103,18 @@ Theorem C15_merge_regress :
   ~ sep (hist (record_old A 105 2 3 d13_state)).
 Proof. exact merge_old_refuted. Qed.
 
+(* long-address regression: with the fixed 256-byte buffer the undo of an event
+   whose address has 248 bytes delivered an empty message and its redo nothing *)
+Theorem C15_long_address_regress :
+  set_len long_addr = 260 /\
+  rewind_old long_ev = [EmptyMsgOld] /\ replay_old long_ev = [] /\
+  rewind long_ev = [SetMsg long_addr 105 1] /\ replay long_ev = [SetMsg long_addr 105 2].
+Proof. exact long_address_refuted. Qed.
+
 (* the hypotheses are satisfiable: a history in which the recent event of /a
    is not the newest event, and an end-to-end history *)
 Theorem C15_nonvacuous :
-  exists s mss, Forall op_ok ex_ops /\ Forall op_fit ex_ops /\ run ex_ops init = Some (s, mss) /\
+  exists s mss, Forall op_ok ex_ops /\ run ex_ops init = Some (s, mss) /\
     Exists (recent (clock s) ex_A) (firstn (pos s) (hist s)) /\
     hist s = [mkEv 1001 ex_A 105 0 2; mkEv 1000 ex_B 105 0 5] /\
     hist (record ex_A 105 2 3 s) = [mkEv 1003 ex_A 105 0 3; mkEv 1000 ex_B 105 0 5].
